@@ -9,7 +9,7 @@ SITES = [("asmjit/x86/x86assembler.cpp", r"x86::Assembler::_emit$"), ("asmjit/ar
 
 
 def run(chk):
-    f = chk.facts(UNIT, funcs=r"asmjit::CodeHolder::(relocate_to_base|new_reloc_entry)$|asmjit::CodeHolder_evaluate_expression$",
+    f = chk.facts(UNIT, funcs=r"asmjit::CodeHolder::(relocate_to_base|new_reloc_entry)$|asmjit::CodeHolder_evaluate_expression$|asmjit::x86_[A-Za-z0-9_]+$",
                   enums=r"asmjit::RelocType$|asmjit::ExpressionOpType$|asmjit::ExpressionValueType$")
     rb = cfg.find_fn(f, "CodeHolder::relocate_to_base")
 
@@ -96,7 +96,7 @@ def run(chk):
         st = m.before(i) or frozenset()
         chk.ob(R2, "relocate_to_base|address-table-store", {("at_entry",)} <= st, loc=rb.loc(i),
                detail="the address table slot is written without a non-null address-table entry")
-    chk.floor(R2 + ":writes", n, 4)
+    chk.floor(R2 + ":writes", n, 2)
     # the address table buffer is reserved whenever the section exists
     res = [i for i, x in rb.calls(lambda x: x.get("cn") == "reserve_buffer")]
     chk.ob(R2, "relocate_to_base|addrtab-reserved", len(res) == 1 and "virtual_size" in rb.text(rb.e(res[0])["args"][1]), loc=rb.loc(res[0]) if res else UNIT,
@@ -106,16 +106,23 @@ def run(chk):
     R3 = "R-ADDRTAB-OPCODES"
     chk.rule(R3, "the bytes tested by the kX64AddressEntry rewrite (E8, E9) are the rel32 opcodes of call/jmp in the dumped x86 tables and in "
                  "db/isa_x86.json, and the replacement ModRM bytes are FF /2 and FF /4 with mod=00 rm=101")
+    # the rewrite may live in relocate_to_base or in a static x86_* helper it calls
+    rewrite_fns = [rb] + [cfg.Fn(fo) for fo in f["functions"] if fo["name"].startswith("asmjit::x86_") and
+                          any(x.get("callee") == fo["name"] for i, x in rb.calls())]
     consts = set()
-    for x in rb.ex.values():
-        if x["k"] == "binop" and x["op"] == "==" and re.sub(r"\s+", "", rb.text(x["lhs"])) == "byte1":
-            r = rb.e(rb.strip(x["rhs"]))
-            if r is not None and "cv" in r:
-                consts.add(r["cv"])
+    for g in rewrite_fns:
+        # the opcode byte that is inspected: a local loaded from the code buffer just before the displacement
+        for x in g.ex.values():
+            if x["k"] == "binop" and x["op"] == "==":
+                r = g.e(g.strip(x["rhs"]))
+                l = g.e(g.strip(x["lhs"]))
+                if r is not None and "cv" in r and r["cv"] in range(0x80, 0x100) and l is not None and l["k"] == "ref" and "uint" in l.get("ty", ""):
+                    consts.add(r["cv"])
     chk.ob(R3, "tested-bytes", consts == {0xE8, 0xE9}, loc=UNIT, detail="rewrite tests bytes %s, expected E8 (call rel32) and E9 (jmp rel32)" % sorted(hex(c) for c in consts))
     mods = []
-    for i, x in rb.calls(lambda x: x.get("cn") == "x86_encode_mod"):
-        mods.append(tuple(rb.e(rb.strip(a)).get("cv") for a in x["args"]))
+    for g in rewrite_fns:
+        for i, x in g.calls(lambda x: x.get("cn") == "x86_encode_mod"):
+            mods.append(tuple(g.e(g.strip(a)).get("cv") for a in x["args"]))
     chk.ob(R3, "replacement-modrm", sorted(mods) == [(0, 2, 5), (0, 4, 5)], loc=UNIT, detail="replacement ModRM bytes are %s, expected (0,2,5) and (0,4,5)" % mods)
     try:
         from lib import x86db
